@@ -11,6 +11,7 @@ OPS_BY_PROP = {
     'C05': ['new', 'iter', 'copy', 'getslice', 'getbit', 'setslice', 'setbit', 'add', 'pad'],
     'C06': ['shift', 'and', 'or', 'xor', 'invert', 'value', 'chunks'],
     'C13': ['eq', 'hash', 'eqbytes', 'hashset'],
+    'C16': ['seq'],
 }
 PROP_OF_OP = {op: p for p, ops in OPS_BY_PROP.items() for op in ops}
 
@@ -67,6 +68,25 @@ def impl(line: str) -> str:
             return show(mk(a[0])[int(a[1])])
         if op == 'setslice':
             b = mk(a[0]); b[int(a[1]):int(a[2])] = mk(a[3]); return show(b)
+        if op == 'seq':
+            # one long-lived Buffer through a sequence of observations and in-place changes (tokens use ',' inside)
+            b = mk(a[0]); obs = []
+            for tok in a[1:]:
+                k = tok.split(',')
+                if k[0] == 'v': obs.append(str(b.value()))
+                elif k[0] == 'h':
+                    key = b.pad(Padding.LEFT, inplace=False).content
+                    obs.append((key.hex() or '-') if hash(b) == hash(key) else 'hash-not-of-left-content')
+                elif k[0] == 'i': obs.append(''.join(str(x) for x in b) or '-')
+                elif k[0] == 'n': obs.append(str(len(b)))
+                elif k[0] == 'e': obs.append('true' if b == mk(k[1]) else 'false')
+                elif k[0] == 'g': obs.append(show(b[int(k[1]):int(k[2])]))
+                elif k[0] == 'S': b[int(k[1]):int(k[2])] = mk(k[3])
+                elif k[0] == 'B': b[int(k[1])] = mk(k[2])
+                elif k[0] == 'H': b.shift(int(k[1]), inplace=True)
+                elif k[0] == 'P': b.pad(P[k[1]], inplace=True)
+                else: raise ValueError(tok)
+            return '|'.join(obs) + ' ; ' + show(b)
         if op == 'setbit':
             b = mk(a[0]); b[int(a[1])] = mk(a[2]); return show(b)
         if op == 'add':
@@ -182,6 +202,28 @@ def oracle(line: str, out: str):
     elif op == 'setslice':
         b, s = tok_bits(a[0]); vb, _ = tok_bits(a[3])
         bad('C05', _canon(r[0], b[:int(a[1])] + vb + b[int(a[2]):], s))
+    elif op == 'seq':
+        bits, side = tok_bits(a[0]); exp = []
+        for tok in a[1:]:
+            k = tok.split(',')
+            if k[0] == 'v': exp.append(('C06', str(int(bits, 2) if bits else 0)))
+            elif k[0] == 'h': exp.append(('C13', spec.canonical_content(bits, 'L').hex() or '-'))
+            elif k[0] == 'i': exp.append(('C05', bits or '-'))
+            elif k[0] == 'n': exp.append(('C05', str(len(bits))))
+            elif k[0] == 'e': exp.append(('C13', 'true' if tok_bits(k[1])[0] == bits else 'false'))
+            elif k[0] == 'g':
+                g = bits[int(k[1]):int(k[2])]
+                exp.append(('C05', f"{spec.canonical_content(g, side).hex() or '-'}:{len(g)}:{side}:{spec.pad_len(len(g))}"))
+            elif k[0] == 'S': bits = bits[:int(k[1])] + tok_bits(k[3])[0] + bits[int(k[2]):]
+            elif k[0] == 'B': bits = bits[:int(k[1])] + tok_bits(k[2])[0] + bits[int(k[1]) + 1:]
+            elif k[0] == 'H': bits = spec.shift(bits, int(k[1]))
+            elif k[0] == 'P': side = k[1]
+        head, _, last = out.partition(' ; ')
+        got = head.split('|') if head else []
+        if len(got) != len(exp): bad('C16', [f'{len(got)} observations for {len(exp)} requested'])
+        for (p, e), g in zip(exp, got):
+            if e != g: bad(p, [f'after the earlier operations on the same Buffer: observed {g}, the bits spell {e}']); bad('C16', [f'history-dependent result: {g} instead of {e}'])
+        m = _canon(last, bits, side); bad('C05', m)
     elif op == 'setbit':
         b, s = tok_bits(a[0]); vb, _ = tok_bits(a[2]); i = int(a[1])
         bad('C05', _canon(r[0], b[:i] + vb + b[i + 1:], s))
@@ -361,6 +403,8 @@ def gen(props, tier, rng):
             x = rng.choice(longs); n = len(x[0]); i = rng.randrange(n + 1); j = rng.randrange(i, n + 1)
             yield f'buf setslice {E(x)} {i} {j} {E(rng.choice(longs + vals))}'
 
+    if props and set(props) & {'C05', 'C06', 'C13', 'C16'}:
+        yield from gen_seq(rng, tier, E)
     if 'setbit' in ops:
         # `b[i] = v` with an integer index: the bit at i is replaced by the whole of v (a slice of width one)
         vals = [(b, s) for b in all_bits(3) for s in 'LR']
@@ -371,6 +415,34 @@ def gen(props, tier, rng):
         for _ in range(R):
             x = rng.choice([l for l in longs if len(l[0]) > 0]); i = rng.randrange(len(x[0]))
             yield f'buf setbit {E(x)} {i} {E(rng.choice(longs + vals))}'
+
+def gen_seq(rng, tier, E):
+    """random op sequences on one Buffer: every observation between every kind of in-place change"""
+    for _ in range(400 if tier == 'quick' else 6000):
+        n = rng.choice([0, 1, 5, 8, 9, 12, 13, 16, 17, 24, 31, rng.randrange(0, 70)])
+        bits = ''.join(rng.choice('01') for _ in range(n)); side = rng.choice('LR')
+        toks = [E((bits, side))]
+        for _ in range(rng.randrange(3, 9)):
+            k = rng.choice(['v', 'h', 'i', 'n', 'e', 'g', 'S', 'S', 'B', 'H', 'P', 'v', 'h'])
+            n = len(bits)
+            if k in ('v', 'h', 'i', 'n'): toks.append(k)
+            elif k == 'e':
+                o = bits if rng.random() < 0.6 else ''.join(rng.choice('01') for _ in range(n))
+                toks.append(f"e,{E((o, rng.choice('LR')))}")
+            elif k == 'g':
+                i = rng.randrange(n + 1); j = rng.randrange(i, n + 1); toks.append(f'g,{i},{j}')
+            elif k == 'S':
+                i = rng.randrange(n + 1); j = rng.randrange(i, n + 1); v = ''.join(rng.choice('01') for _ in range(rng.randrange(0, 12)))
+                toks.append(f"S,{i},{j},{E((v, rng.choice('LR')))}"); bits = bits[:i] + v + bits[j:]
+            elif k == 'B' and n > 0:
+                i = rng.randrange(n); v = ''.join(rng.choice('01') for _ in range(rng.randrange(0, 4)))
+                toks.append(f"B,{i},{E((v, rng.choice('LR')))}"); bits = bits[:i] + v + bits[i + 1:]
+            elif k == 'H':
+                sh = rng.choice([-9, -8, -3, -1, 1, 2, 7, 8, 9]); toks.append(f'H,{sh}'); bits = spec.shift(bits, sh)
+            elif k == 'P':
+                side = rng.choice('LR'); toks.append(f'P,{side}')
+        toks.append(rng.choice(['v', 'h', 'i']))
+        yield 'buf seq ' + ' '.join(toks)
 
 def model_line(line):
     t = line.split()
